@@ -64,6 +64,7 @@ type oracle struct {
 	preTamperLock   int
 	firstTamperStep int
 	intended        map[int64][]*ref.Entry
+	stagedBad       []stagedBad
 	ackSeen         map[string][2]int64
 	casPending      map[[2]int]bool
 	staleRegress    bool
